@@ -281,6 +281,17 @@ func (s *Server[StateT]) handleWriteFile(ctx *Context[StateT]) error {
 	}
 
 	written, err := s.Handler.HandleWriteFile(ctx, data)
+
+	// payload belongs to this request even if handler refused or failed to consume it
+	if _, discardErr := io.Copy(io.Discard, data); discardErr != nil {
+		return fmt.Errorf("discard unconsumed file data failed: %w", discardErr)
+	}
+
+	// stream ended before announced amount of data arrived: request is incomplete, nothing to answer
+	if lr, ok := data.(*io.LimitedReader); ok && lr.N > 0 {
+		return fmt.Errorf("file data truncated: %w", io.ErrUnexpectedEOF)
+	}
+
 	if err != nil {
 		return ctx.wr.SendWriteFileError()
 	}
